@@ -147,6 +147,15 @@ def nf(tu, n, env=None, depth=0):
                     return r_
         if k == 'CallExpr' and depth < 30:
             c = tu.callee_fn(n)
+            if c is not None and not c.get('rec') and c['q'].startswith('rkcommon::array3D::') and c['fty'].startswith('bool') \
+                    and not c['dep'] and len(c.get('params', [])) == len(a):
+                body = tu.body(c)
+                sts = [x for x in tu.kids(body)] if body else []
+                if len(sts) == 1 and sts[0].get('kind') == 'ReturnStmt' and tu.kids(sts[0]):
+                    env2 = dict(env)
+                    for prm, av in zip(c['params'], a):
+                        env2[prm['id']] = av
+                    return nf(tu, tu.kids(sts[0])[0], env2, depth + 1)      # predicate helper: same condition
             if c is not None and c.get('static') and (c.get('rec') or '').startswith('rkcommon::array3D::') and not c['dep'] \
                     and len(c.get('params', [])) == len(a):
                 body = tu.body(c)
@@ -678,6 +687,137 @@ def for_parts(tu, st):
 PRODUCTS = ('rkcommon::math::reduce_mul', 'rkcommon::math::vec_t::product', 'rkcommon::math::vec_t::long_product')
 
 
+def push_not(t):
+    """negation normal form of a condition: !(a && b) = !a || !b, !(x < y) = x >= y, ..."""
+    if not isinstance(t, tuple) or not t:
+        return t
+    if t[0] == 'un' and t[1] == '!':
+        u = push_not(t[2])
+        if u[0] == 'op' and u[1] in ('&&', '||'):
+            return op_nf('||' if u[1] == '&&' else '&&', [push_not(('un', '!', x)) for x in u[2]])
+        if u[0] == 'op' and u[1] in ('<', '<=', '>', '>=', '==', '!=') and len(u[2]) == 2:
+            flip = {'<': '>=', '<=': '>', '>': '<=', '>=': '<', '==': '!=', '!=': '=='}[u[1]]
+            return op_nf(flip, list(u[2]))
+        if u[0] == 'un' and u[1] == '!':
+            return u[2]
+        return ('un', '!', u)
+    if t[0] == 'op' and t[1] in ('&&', '||'):
+        return op_nf(t[1], [push_not(x) for x in t[2]])
+    return t
+
+
+def odometer_loop(tu, stmts, lo, hi, fun):
+    """`vec3i idx = lower; do { functor(vec3i(idx)); } while (step(idx, lower, upper));` with a step helper that advances idx like
+    an odometer: ++x, wrap x to lower.x and carry into y, wrap y to lower.y and carry into z, false once z reaches upper.z.
+    None: not this shape.  True: the canonical x-fastest order over [lower, upper).  (kind, message): recognisably wrong."""
+    L, U = ('ref', 'ParmVarDecl', lo), ('ref', 'ParmVarDecl', hi)
+    if len(stmts) != 2 or stmts[0].get('kind') != 'DeclStmt' or stmts[1].get('kind') != 'DoStmt':
+        return None
+    vds = [d for d in tu.kids(stmts[0]) if d.get('kind') == 'VarDecl']
+    if len(vds) != 1 or not tu.kids(vds[0]):
+        return None
+    iv = vds[0]
+    ivref = ('ref', 'VarDecl', iv.get('name'))
+    start = nf(tu, tu.kids(iv)[-1])
+    ks = tu.kids(stmts[1])
+    if len(ks) != 2:
+        return None
+    body, cond = ks
+    while body is not None and body.get('kind') == 'CompoundStmt' and len(tu.kids(body)) == 1:
+        body = tu.kids(body)[0]
+    call = drop_casts(nf(tu, body))
+    arg = None
+    if call[0] == 'op' and call[1] == '()' and len(call[2]) == 2 and call[2][0] == ('ref', 'ParmVarDecl', fun):
+        arg = call[2][1]
+    elif call[0] == 'call' and call[2] == ('ref', 'ParmVarDecl', fun) and call[3]:
+        arg = call[3][0]
+    if arg not in (ivref, ('ctor', 'rkcommon::math::vec_t', (ivref,))):
+        return None
+    c = tu.strip(cond)
+    if c is None or c.get('kind') != 'CallExpr':
+        return None
+    step = tu.callee_fn(c)
+    _, _, cargs = tu.call_parts(c)
+    if step is None or step['dep'] or tu.body(step) is None or len(cargs) != len(step['params']):
+        return None
+    env = {}
+    for prm, av in zip(step['params'], cargs):
+        env[prm['id']] = nf(tu, av)
+    if start != L:
+        if start == U:
+            return ('init', 'the odometer starts at upper instead of lower')
+        return None
+    # stages of the step function
+    sts = tu.kids(tu.body(step))
+    stages = []
+    i = 0
+    inc_of = lambda t: (t[2] if t[0] == 'un' and t[1] == '++' else t[2][0] if t[0] == 'op' and t[1] == '+=' and t[2][1] == ('int', 1) else None)
+    while i < len(sts):
+        st = sts[i]
+        if st.get('kind') == 'IfStmt':
+            parts = [x for x in st.get('inner', []) if isinstance(x, dict) and x.get('kind')]
+            th = parts[1] if len(parts) == 2 else None
+            while th is not None and th.get('kind') == 'CompoundStmt' and len(tu.kids(th)) == 1:
+                th = tu.kids(th)[0]
+            if th is None or th.get('kind') != 'ReturnStmt' or not tu.kids(th) or drop_casts(nf(tu, tu.kids(th)[0], env)) != ('int', 1):
+                return None
+            cnd = drop_casts(nf(tu, parts[0], env))
+            if i + 1 >= len(sts):
+                return None
+            rs = drop_casts(nf(tu, sts[i + 1], env))
+            if not (rs[0] == 'op' and rs[1] == '=' and len(rs[2]) == 2):
+                return None
+            stages.append((cnd, rs[2][0], rs[2][1]))
+            i += 2
+        elif st.get('kind') == 'ReturnStmt' and i == len(sts) - 1 and tu.kids(st):
+            stages.append((drop_casts(nf(tu, tu.kids(st)[0], env)), None, None))
+            i += 1
+        else:
+            return None
+    if len(stages) != 3 or stages[-1][1] is not None:
+        return None
+    for k, (cnd, rst, rval) in enumerate(stages):
+        want = 'xyz'[k]
+        if not (cnd[0] == 'op' and cnd[1] in ('<', '<=', '>', '>=', '!=') and len(cnd[2]) == 2):
+            return None
+        a, b = cnd[2]
+        rel = cnd[1]
+        if inc_of(b) is not None:
+            a, b, rel = b, a, {'<': '>', '>': '<', '<=': '>=', '>=': '<=', '!=': '!='}[rel]
+        digit = inc_of(a)
+        if digit is None or not (digit[0] == 'mem' and digit[1] == ivref):
+            return None
+        comp = digit[2]
+        if comp != want:
+            return ('order', 'digit %d of the odometer (0 = fastest) advances component %s; the flattened order is x fastest, then y, then z'
+                    % (k, comp))
+        if rel == '<=':
+            return ('bound', 'the %s digit keeps running while ++%s <= upper.%s: it includes the upper bound of [lower, upper)' % (comp, comp, comp))
+        if rel != '<':
+            return ('bound', 'the %s digit is tested with `%s`' % (comp, rel))
+        if not (b[0] == 'mem' and b[1] == U):
+            if b[0] == 'mem' and b[1] == L:
+                return ('bound', 'the %s digit is bounded by lower.%s' % (comp, b[2]))
+            if b[0] == 'op' and b[1] in ('-', '+') and len(b[2]) == 2 and ('mem', U, comp) in b[2] and any(x[0] == 'int' and x[1] for x in b[2]):
+                return ('bound', 'the %s digit runs while ++%s < %s: the bound is off by a constant, so the last (or an extra) %s of the '
+                        'region is %s' % (comp, comp, show(b), {'x': 'column', 'y': 'row', 'z': 'slice'}[comp],
+                                          'skipped' if b[1] == '-' else 'visited'))
+            return None
+        if b[2] != comp:
+            return ('component', 'the %s digit is bounded by upper.%s' % (comp, b[2]))
+        if rst is not None:
+            if rst != ('mem', ivref, comp):
+                if rst[0] == 'mem' and rst[1] == ivref:
+                    return ('wrap', 'after the %s digit overflows, component %s is reset instead of %s' % (comp, rst[2], comp))
+                return None
+            if rval != ('mem', L, comp):
+                if rval == ('int', 0) or (rval[0] == 'mem' and rval[1] in (L, U)):
+                    return ('wrap', 'the %s digit wraps to %s instead of lower.%s: rows after the first start at the wrong coordinate'
+                            % (comp, show(rval), comp))
+                return None
+    return True
+
+
 def early_out(tu, st, lo, hi):
     """`if (C) return;` in front of the loop nest: True if C implies an empty region (in exact arithmetic), a message if C
     is a recognised wrong condition, None if not recognised"""
@@ -723,7 +863,7 @@ def early_out(tu, st, lo, hi):
                 return 'returns early when lower.%s %s upper.%s, i.e. for non-empty extents' % (a[2], rel, b[2])
         return None
 
-    c = nf(tu, cond)
+    c = push_not(nf(tu, cond))
     parts = list(c[2]) if c[0] == 'op' and c[1] in ('||', '&&') else [c]
     res = [atom_ok(x) for x in parts]
     if any(r is None for r in res):
@@ -737,7 +877,7 @@ def early_out(tu, st, lo, hi):
 def early_out_axes(tu, st, lo, hi):
     """components c for which the (accepted) early-out returns whenever upper.c <= lower.c"""
     inner = [x for x in st.get('inner', []) if isinstance(x, dict) and x.get('kind')]
-    c = nf(tu, inner[0])
+    c = push_not(nf(tu, inner[0]))
     L, U = ('ref', 'ParmVarDecl', lo), ('ref', 'ParmVarDecl', hi)
     parts = list(c[2]) if c[0] == 'op' and c[1] == '||' else ([c] if not (c[0] == 'op' and c[1] == '&&') else [])
     out = set()
@@ -867,6 +1007,22 @@ def check_for_each(ctx, tu):
                 else:
                     covered |= early_out_axes(tu, cur[0], lo, hi)
                 cur = cur[1:]
+            odo = odometer_loop(tu, cur, lo, hi, fun) if not und else None
+            if odo is not None:
+                if odo is not True:
+                    problems.append(odo)
+                elif not (covered >= {'x', 'y', 'z'}):
+                    problems.append(('empty-region', 'the do-while loop calls the functor at `lower` before anything is tested, and nothing returns '
+                                     'early for an empty extent in %s: an empty region is visited' % ', '.join(sorted({'x', 'y', 'z'} - covered))))
+                seen = set()
+                for kind, why in problems:
+                    if kind not in seen:
+                        seen.add(kind)
+                        ctx.violation(R, inst, why, tu.fn_loc(f), key=key + kind)
+                if not problems:
+                    ctx.ok(R, inst, 'odometer loop from lower: ++x, wrap to lower.x and carry into y, then into z, until z reaches upper.z; '
+                           'empty extents return early on every axis', tu.fn_loc(f))
+                continue
             flat = flat_loop(tu, cur, lo, hi, fun) if not und else None
             if flat is not None:
                 n_flat = True
